@@ -1,8 +1,81 @@
-(* C03 — proofs about model/C03_Model.v *)
+(* C03 — the theorems of props/C03_Properties.v, stated for every state reachable from the
+   empty state by any sequence of operations (errors included: an exception changes nothing). *)
 From Coq Require Import QArith String.
 From QV.lib Require Import Prelude C03_Slice.
 From QV.model Require Import C03_Model.
+From QV.proof Require Export C03_Proofs_Base C03_Proofs_Ops C03_Proofs_Step C03_Proofs_Getitem
+  C03_Proofs_Getitem2.
 From Coq Require Import List.
 Import ListNotations.
 Local Close Scope Q_scope.
-Lemma stub : True. Proof. exact I. Qed.
+Local Open Scope list_scope.
+
+Section Reachable.
+  Variable FR : list Z -> list Z -> list nat -> list Z -> list Z.
+  Variable divf : Z -> Z -> Z.
+  Variable ops : list op.
+  Let s := run FR divf empty_state ops.
+
+  Lemma reach_Inv : Inv s.
+  Proof. apply coherent_reachable. Qed.
+
+  Lemma reach_coherent t :
+    t < length (dss s) ->
+    let o := observe s t in
+    length (o_origin o) = length (o_shape o) /\ length (o_sampling o) = length (o_shape o) /\
+    length (o_units o) = length (o_shape o) /\ cls_ok (o_cls o) (length (o_shape o)).
+  Proof. intros Ht. apply Inv_unfold; [apply reach_Inv|exact Ht]. Qed.
+
+  Lemma reach_getitem t idx s' :
+    t < length (dss s) -> getitem s t idx = Ok s' ->
+    let src := observe s t in
+    let res := observe s' (length (dss s)) in
+    exists v, np_index (o_shape src) (o_flat src) idx = Ok v /\
+      length (dss s') = S (length (dss s)) /\
+      o_shape res = np_shape v /\ o_flat res = np_flat v /\
+      o_origin res = map (fun ax => nth (oax_src ax) (o_origin src) 0%Q) (np_axes v) /\
+      Forall2 Qeq (o_sampling res)
+              (map (fun ax => (nth (oax_src ax) (o_sampling src) 1 * inject_Z (oax_step ax))%Q) (np_axes v)) /\
+      o_units res = map (fun ax => nth (oax_src ax) (o_units src) ""%string) (np_axes v) /\
+      o_cls res = (if length (np_shape v) =? length (o_shape src) then o_cls src
+                   else registry (length (np_shape v))).
+  Proof. intros Ht H. apply (getitem_correct s t idx s' H reach_Inv Ht). Qed.
+
+  Lemma reach_getitem_data t idx s' :
+    t < length (dss s) -> getitem s t idx = Ok s' ->
+    exists v, np_index (o_shape (observe s t)) (o_flat (observe s t)) idx = Ok v /\
+      o_shape (observe s' (length (dss s))) = np_shape v /\
+      o_flat (observe s' (length (dss s))) = np_flat v.
+  Proof.
+    intros Ht H. destruct (reach_getitem t idx s' Ht H) as (v & H1 & _ & H2 & H3 & _).
+    exists v. repeat split; assumption.
+  Qed.
+
+  Lemma reach_source_untouched o s' :
+    step FR divf s o = Ok s' -> returns_new o = true ->
+    length (dss s') = S (length (dss s)) /\
+    forall t, t < length (dss s) -> get_ds s' t = get_ds s t /\ observe s' t = observe s t.
+  Proof. intros H Hr. apply (source_untouched FR divf s o s' H reach_Inv Hr). Qed.
+
+  Lemma reach_others_untouched o s' t :
+    step FR divf s o = Ok s' -> returns_new o = false -> op_target o = Some t ->
+    length (dss s') = length (dss s) /\
+    forall u, u < length (dss s) -> u <> t -> get_ds s' u = get_ds s u /\ observe s' u = observe s u.
+  Proof. intros H Hr Ho. apply (others_untouched FR divf s o s' t H reach_Inv Hr Ho). Qed.
+
+  Lemma reach_no_buffer_writes o s' :
+    step FR divf s o = Ok s' ->
+    (forall i, i < length (arrs s) -> get_arr s' i = get_arr s i) /\
+    (forall i, i < length (nums s) -> get_num s' i = get_num s i) /\
+    (forall i, i < length (strs s) -> get_str s' i = get_str s i).
+  Proof. intros H. apply (no_buffer_writes FR divf s o s' H reach_Inv). Qed.
+
+  Lemma reach_inplace_eq_copy o t :
+    has_flag o = true -> op_target o = Some t -> t < length (dss s) ->
+    match step FR divf s (with_flag o true), step FR divf s (with_flag o false) with
+    | Ok s1, Ok s2 => observe s1 t = observe s2 (length (dss s))
+    | Err e1, Err e2 => e1 = e2
+    | _, _ => False
+    end.
+  Proof. intros Hf Ho Ht. apply (inplace_eq_copy FR divf s o t reach_Inv Hf Ho Ht). Qed.
+End Reachable.
